@@ -39,8 +39,8 @@ SCENARIOS = {
     'silent': dict(callers=[[('comm', 1)], [('comm', 2)], [M((3, 0.2), (4, 0))]], behaviour={1: ('silent',), 3: ('silent',)}),
     'trickle': dict(callers=[[('comm', 1)], [('comm', 2)]], behaviour={1: ('trickle',)}, horizon=25),
     'bytes_pairs': dict(bytes=True, callers=[[M((1, 0), (2, 0))], [('comm', 3), ('comm', 4)]], behaviour={2: ('normal', 2)}),
-    'bytes_delays': dict(bytes=True, callers=[[M((1, 1.0), (2, 2.0), (3, 0))], [('comm', 4)]]),
-    'string_delays': dict(callers=[[M((1, 1.0), (2, 2.0), (3, 0))], [('comm', 4)]]),
+    'bytes_delays': dict(bytes=True, callers=[[M((1, 1.0), (2, 2.0), (3, 0.5))], [('comm', 4)]]),
+    'string_delays': dict(callers=[[M((1, 1.0), (2, 2.0), (3, 0.5))], [('comm', 4)]]),
     'close_reconnect': dict(callers=[[('comm', 1), ('sleep', 1), ('comm', 2), ('sleep', 1), ('comm', 3), ('sleep', 1),
                                       ('comm', 5), ('sleep', 5), ('comm', 6)],
                                      [('sleep', 0.5), ('comm', 7), ('sleep', 2), ('comm', 8)]],
@@ -61,7 +61,50 @@ SCENARIOS = {
     'drop_inside': dict(callers=[[M((1, 0.5), (2, 0.5), (3, 0))], [('comm', 4), ('sleep', 4), ('comm', 5)]],
                         drop_at=0.7, refuse=1, callbacks=2, horizon=30),
     'wait_before': dict(callers=[[('comm', 1), ('comm', 2)], [('comm', 3)]], wait_before=0.3, behaviour={2: ('late', 2.2)}),
+    # commands without reply: writeline, multicomm elements without reply, multicomm given as plain strings
+    'write_mix': dict(callers=[[('write', 1), ('comm', 2), ('write', 3)],
+                               [('multi', [(4, False, 0.3), (5, True, 0), (6, False, 0)]), ('comm', 7)]],
+                      behaviour={1: ('noreply',), 3: ('noreply',), 4: ('noreply',), 6: ('noreply',)}),
+    'write_chatty': dict(callers=[[('write', 1), ('sleep', 1), ('comm', 2)], [('sleep', 2.5), ('multi_str', [3, 4])]]),
+    # the byte oriented communicator under the same faults
+    'bytes_late': dict(bytes=True, callers=[[('comm', 1), ('sleep', 2.5), ('comm', 2)], [('sleep', 5.5), ('comm', 3), M((4, 0), (5, 0))]],
+                       behaviour={1: ('late', 3.0), 2: ('garbage_after', 0.5)}),
+    'bytes_silent': dict(bytes=True, callers=[[('comm', 1)], [('comm', 2)], [M((3, 0.2), (4, 0))]],
+                         behaviour={1: ('silent',), 3: ('silent',)}),
+    'bytes_trickle': dict(bytes=True, callers=[[('comm', 1)], [('comm', 2)]], behaviour={1: ('trickle', 0.9)}, horizon=25),
+    'bytes_close_reconnect': dict(bytes=True, callers=[[('comm', 1), ('sleep', 1), ('comm', 2), ('sleep', 3), ('comm', 3), ('sleep', 3),
+                                                        ('comm', 5), ('sleep', 5), ('comm', 6)],
+                                                       [('sleep', 0.5), ('comm', 7), ('sleep', 2), ('comm', 8)]],
+                                  behaviour={1: ('close',)}, refuse=2, callbacks=2, horizon=40),
+    'bytes_wait_before': dict(bytes=True, callers=[[('comm', 1), ('comm', 2)], [('comm', 3)]], wait_before=0.3,
+                              behaviour={2: ('late', 2.2)}),
+    # identification exchange on connect; wrong answers make the attempt fail
+    'ident_reconnect': dict(ident=True, callers=[[('comm', 1), ('sleep', 4), ('comm', 2), ('sleep', 4), ('comm', 3)],
+                                                 [('sleep', 0.2), ('comm', 4), ('sleep', 5), ('comm', 5)]],
+                            behaviour={1: ('close',)}, refuse=1, callbacks=2, horizon=40),
+    'ident_bad': dict(ident=True, bad_ident=3, callers=[[('comm', 1), ('sleep', 3.5), ('comm', 2), ('sleep', 3.5), ('comm', 3),
+                                                         ('sleep', 3.5), ('comm', 4)]], callbacks=1, horizon=40),
+    'ident_bad_noretry': dict(ident=True, bad_ident=1, retry_first_idn=False,
+                              callers=[[('comm', 1), ('sleep', 3.5), ('comm', 2), ('sleep', 3.5), ('comm', 3)]], callbacks=1, horizon=40),
+    'bytes_ident_bad': dict(bytes=True, ident=True, bad_ident=1, callers=[[('comm', 1), ('sleep', 3.5), ('comm', 2), ('sleep', 3.5),
+                                                                           ('comm', 3)]], callbacks=1, horizon=40),
+    # the peer resets the connection (for the tcp transport; the scripted transport just closes)
+    'reset_reconnect': dict(reset=True, callers=[[('comm', 1), ('sleep', 4), ('comm', 2), ('sleep', 4), ('comm', 3)],
+                                                 [('sleep', 0.5), ('comm', 4), ('sleep', 4), ('comm', 5)]],
+                            behaviour={1: ('close',)}, callbacks=2, horizon=40),
+    # the user switches the connection off: it comes back by itself, with callbacks
+    'user_disc': dict(callers=[[('comm', 1), ('disc',), ('sleep', 3.5), ('comm', 2), ('comm', 3)],
+                               [('sleep', 4.5), ('comm', 4), ('sleep', 4), ('comm', 5)]], callbacks=2, horizon=30),
 }
+
+
+def scenario(name):
+    """name or name@tcp (the same script over the real AsynTcp on a fake socket layer)"""
+    base, _, variant = name.partition('@')
+    sc = dict(SCENARIOS[base])
+    if variant == 'tcp':
+        sc['tcp'] = True
+    return sc
 T0 = 1000000.0
 
 
@@ -73,8 +116,10 @@ def alpha(r, sc):
         if ev == 'call':
             beh = sc.get('behaviour', {})
             tr.append({'ev': 'call', 'i': e['i'], 'kind': e['kind'], 'gids': e['gids'], 'delays': e['delays'], 't': t,
-                       'faulty': any(beh.get(g, ('normal',))[0] not in ('normal', 'garbage_after') for g in e['gids'])
-                       or 'drop_at' in sc or any(b[0] == 'trickle' for b in beh.values())})   # (a trickling device is busy)
+                       'exp': e['exp'],
+                       'faulty': any(beh.get(g, ('normal',))[0] not in ('normal', 'garbage_after', 'noreply') for g in e['gids'])
+                       or 'drop_at' in sc or any(b[0] == 'trickle' for b in beh.values())   # (a trickling device is busy)
+                       or any(x[0] == 'disc' for c in sc['callers'] for x in c)})
         elif ev == 'dev_recv':
             tr.append({'ev': 'drecv', 'g': e['gid'], 't': t})
         elif ev == 'host_send':
@@ -94,6 +139,12 @@ def alpha(r, sc):
             tr.append({'ev': 'attempt', 'ok': e['ok'], 't': t})
         elif ev == 'callback':
             tr.append({'ev': 'callback', 'name': e['name']})
+        elif ev == 'ident_failed':
+            tr.append({'ev': 'identfail'})
+        elif ev == 'user_disc':
+            tr.append({'ev': 'udisc'})
+        elif ev == 'user_disc_failed':
+            tr.append({'ev': 'broken', 'what': 'is_connected := False failed: ' + e['msg']})
         elif ev == 'end':
             tr.append({'ev': 'end', 'connected': e['connected'], 'unfinished': e['unfinished'],
                        'trickle': any(b[0] == 'trickle' for b in sc.get('behaviour', {}).values())})
@@ -107,7 +158,7 @@ def _explore(args):
     name, mode, seed, nruns = args
     from .. import detsched as ds
     from ..commworld import run_scenario
-    sc = SCENARIOS[name]
+    sc = scenario(name)
     out = []
     if mode == 'dfs':
         class Run:
@@ -145,9 +196,12 @@ def run(chk):
     jobs = []
     ndfs, nrnd = (150, 100) if quick else (3000, 2000)
     for name in SCENARIOS:
+        # quick: bounded-preemption search over the scripted transport, random schedules over both transports
         jobs.append((name, 'dfs', chk.seed, ndfs))
+        if not quick:
+            jobs.append((name + '@tcp', 'dfs', chk.seed, ndfs))
         for part in range(2 if quick else 8):
-            jobs.append((name, 'rnd', chk.seed * 31 + part, nrnd // (2 if quick else 8)))
+            jobs.append((name + ('@tcp' if part % 2 else ''), 'rnd', chk.seed * 31 + part, nrnd // (2 if quick else 8)))
     results = pool_map(_explore, jobs, chunksize=1)
     traces, origin, seen = [], [], set()
     for name, out in results:
@@ -168,7 +222,7 @@ def run(chk):
     count = {}
     for i, v in verdicts.items():
         name, choices = origin[i]
-        sc = SCENARIOS[name]
+        sc = scenario(name)
         chk.impl_traces += 1
         chk.case((name, tuple(choices)), bool(sc.get('behaviour')) or len(set(choices)) > 1)
         if v is not None:
@@ -185,7 +239,7 @@ def run(chk):
                 chk.violation({'module': 'CommObs', 'deviation': dev},
                               {'scenario': name, 'choices': choices, 'trace': traces[i]})
     chk.notes['deviations_needed'] = count
-    chk.notes['scenarios'] = {n: sum(1 for o in origin if o[0] == n) for n in SCENARIOS}
+    chk.notes['scenarios'] = {n: sum(1 for o in origin if o[0] == n) for n in sorted({o[0] for o in origin})}
     if traces:
         chk.sample({'scenario': origin[0][0], 'choices': origin[0][1][:30], 'trace': traces[0][:14]})
 
@@ -194,7 +248,7 @@ def replay(chk, rep):
     from .. import detsched as ds
     from ..commworld import run_scenario
     d = rep['detail']
-    sc = SCENARIOS[d['scenario']]
+    sc = scenario(d['scenario'])
     r = run_scenario(sc, ds.GuidedStrategy(d['choices']))
     for e in alpha(r, sc):
         print(e)
